@@ -169,12 +169,14 @@ def oset_iter(eng, c, a, g):
 def oset_extend(eng, c, a, g):
     s = eng.load(a[0]); it = a[1]
     for av, v in it.remaining():
+        if v is None or z3.is_false(av): continue
         ns, _ = oset_insert_val(eng, s, uid(eng, v), g)
         s = ns.merge(av, s)
     eng.store(a[0], s, g); return UNIT
 def oset_collect(eng, c, a, g):
     s = oset_new(eng, c, a, g)
     for av, v in a[0].remaining():
+        if v is None or z3.is_false(av): continue
         ns, _ = oset_insert_val(eng, s, uid(eng, v), g)
         s = ns.merge(av, s)
     return s
@@ -599,3 +601,80 @@ MODELS = [
     (R(r'<std::string::String as Deref>::deref'), string_deref),
     (R(r'std::string::String::as_str'), string_deref),
 ]
+
+MODELS_NORM = [(re.compile(norm_path(p.pattern)), f) for p, f in MODELS]
+
+# ------------------------------------------------------------------ C06: versions, dates, hash maps with arbitrary iteration order
+class SymStr:
+    """an opaque string identified by a tag (package name, exclusion prefix)"""
+    def __init__(self, tag): self.tag = tag
+    def merge(self, g, o): return self
+def hashmap_iter_permuted(eng, c, a, g):
+    """HashMap iteration order is unspecified: positions are filled through a symbolic permutation of the key universe"""
+    perm = eng.cfg['hash_perm']
+    items = []
+    for cnd, (r, p), m in containers(eng, a[0]):
+        n = len(m.present)
+        for pos in range(n):
+            sel = [EQ(perm[i], BV(pos, 8)) for i in range(n)]
+            key = BV(0, 8)
+            for i in range(n): key = IF(sel[i], BV(i, 8), key)
+            avail = OR(*[AND(sel[i], m.present[i]) for i in range(n)])
+            vref = Ptr([(sel[i], (r, p + (('k', i),))) for i in range(n)])
+            items.append((AND(cnd, avail), Agg([url_ref(key), vref])))
+    return IterModel(items)
+def set_is_empty(eng, c, a, g): return EQ(eng.load(a[0]).count, BV(0, eng.W))
+def version_req_matches(eng, c, a, g):
+    u = uid(eng, a[1]); bits = eng.cfg['req_matches']; r = FALSE
+    for i in range(len(bits)): r = IF(EQ(u, BV(i, 8)), bits[i], r)
+    return r
+def version_cmp(eng, c, a, g):
+    x, y = uid(eng, a[0]), uid(eng, a[1])     # version ids are their ranks
+    return EnumV(IF(ULT(x, y), BV(255, 8), IF(EQ(x, y), BV(0, 8), BV(1, 8))), {})
+def ordering_is_lt(eng, c, a, g):
+    o = deref_val(eng, a[0]); return EQ(o.tag, BV(255, 8))
+def date_lt(eng, c, a, g):
+    x, y = deref_val(eng, a[0]), deref_val(eng, a[1])
+    while isinstance(x, Agg): x = x.f[0]
+    while isinstance(y, Agg): y = y.f[0]
+    return ULT(x, y)
+def bool_then_some(eng, c, a, g): return opt(a[0], a[1])
+def option_flatten(eng, c, a, g):
+    o = a[0]; inner = opt_payload(o)
+    if inner is None: return none()
+    return ite(opt_is_some(o), inner, none())
+def option_unwrap_or(eng, c, a, g):
+    o = a[0]; p = opt_payload(o)
+    if p is None: return a[1]
+    return ite(opt_is_some(o), p, a[1])
+def btreeset_contains_pkg(eng, c, a, g): return eng.cfg['pkg_excluded_exact']
+def deref_identity(eng, c, a, g): return a[0]
+def iter_any(eng, c, a, g):
+    it = eng.load(a[0]); clo = a[1]; r = FALSE
+    for av, v in it.remaining():
+        if v is None or z3.is_false(av): continue
+        r = OR(r, AND(av, eng.call_closure(clo, [v], AND(g, av))))
+    return r
+def symstr_starts_with(eng, c, a, g):
+    t, pre = textid(eng, a[0]), textid(eng, a[1])
+    if isinstance(t, SymStr) and isinstance(pre, SymStr): return eng.cfg['starts_with'][(t.tag, pre.tag)]
+    return str_starts_with(eng, c, a, g)
+
+_C06 = [
+    (R(r'HashMap::<Version, .*>::iter'), hashmap_iter_permuted),
+    (R(r'HashMap::<Version, .*>::get::<.*>'), map_get),
+    (R(r'HashSet::<Version>::contains::<.*>'), set_contains),
+    (R(r'HashSet::<Version>::is_empty'), set_is_empty),
+    (R(r'VersionReq::matches'), version_req_matches),
+    (R(r'<Version as Ord>::cmp'), version_cmp),
+    (R(r'Ordering::is_lt'), ordering_is_lt),
+    (R(r'<DateTime<Utc> as PartialOrd>::lt'), date_lt),
+    (R(r'<impl bool>::then_some::<.*>'), bool_then_some),
+    (R(r'Option::<.*>::flatten'), option_flatten),
+    (R(r'Option::<.*>::unwrap_or'), option_unwrap_or),
+    (R(r'BTreeSet::<StackString>::contains::<.*>'), btreeset_contains_pkg),
+    (R(r'<(Vec<.*>|StackString) as Deref>::deref'), deref_identity),
+    (R(r'StackString::as_str'), deref_identity),
+    (R(r'<.* as Iterator>::any::<.*'), iter_any),
+]
+MODELS_NORM = [(re.compile(norm_path(p.pattern)), f) for p, f in _C06] + [(p, (symstr_starts_with if f is str_starts_with else f)) for p, f in MODELS_NORM]
